@@ -343,7 +343,7 @@ PROPS['C08'] = dict(
 PROPS['C14'] = dict(
     lean_modules=['Model.Indexer', 'Model.LogFilter', 'Properties.C14', 'Properties.C13', 'Properties.C20Filter', 'Facts.Indexer', 'Facts.Block', 'Facts.EventSys', 'Facts.TieIndexer', 'Facts.TieMeta'],
     facts=['*'],
-    theorems=['tie_tx_index_key', 'tie_tx_index_key_injective', 'tie_parse_block_number_roundtrip', 'tie_parse_block_number_refuses', 'tie_height_bytes_order', 'tie_tx_index_key_order_height', 'tie_tx_index_key_order_index', 'beToU64_u64ToBe', 'fact_translated_all', 'C14_filter_topics', 'topicLoop_spec', 'fact_filterlogs_guards', 'C14_lookup_by_hash', 'C14_lookup_by_index', 'C14_index_eq_consensus', 'C14_reindex_idempotent', 'C14_restart_skips_fails',
+    theorems=['tie_tx_index_key', 'tie_tx_index_key_injective', 'tie_parse_block_number_roundtrip', 'tie_parse_block_number_refuses', 'tie_height_bytes_order', 'tie_tx_index_key_order_height', 'tie_tx_index_key_order_index', 'tie_indexer_is_eth_tx', 'tie_indexer_filter_is_lane', 'beToU64_u64ToBe', 'fact_translated_all', 'C14_filter_topics', 'topicLoop_spec', 'fact_filterlogs_guards', 'C14_lookup_by_hash', 'C14_lookup_by_index', 'C14_index_eq_consensus', 'C14_reindex_idempotent', 'C14_restart_skips_fails',
               'C14_restart_partial', 'C14_restart_resumes', 'indexFrom_get', 'indexFrom_get_other', 'cntBefore_eq_consensus', 'C13_txIndex', 'C13_logIndex',
               'C13_cumulativeGas', 'fact_one_batch_per_block', 'fact_restart_rule', 'fact_log_index_restored'],
     engines=[dict(name='genfuncs', test='TestEngineGenfuncs', quick=2000, thorough=100000, thorough_seeds=2, no_model=True),
